@@ -26,6 +26,8 @@ def run(chk, ctx) -> None:
     _coverage(chk, ctx)
     _tournament(chk, ctx)
     _order(chk, ctx)
+    from .cover import showing_components
+    showing_components(chk, ctx)
 
 
 def _default(chk, ctx) -> None:
